@@ -67,3 +67,8 @@ Fixpoint while_loop {S : Type} (fuel : nat) (cond : S -> bool) (body : S -> read
   | O => OutOfFuel
   | Datatypes.S f => if cond s then let* (s', r') := body s r in while_loop f cond body s' r' else Ok (s, r)
   end.
+
+(* indexing a [T; 4] (a 4-tuple in the model) with a computed index: out of range panics *)
+Definition tup4_get {A} (t : A * A * A * A) (i : Z) : res A :=
+  let '(a, b, c, d) := t in
+  if i =? 0 then Ok a else if i =? 1 then Ok b else if i =? 2 then Ok c else if i =? 3 then Ok d else Panic PIndex.
